@@ -932,7 +932,15 @@ func (d *driver) scenario(steps []Step) error {
 			case "if":
 				addr = fmt.Sprintf("%s:%d", d.ifc.ipString(), e.port)
 			case "solo":
-				addr = ":0"
+				// alone on its port, also with respect to other processes: an ephemeral bind of a
+				// reuse socket may land on a port that a foreign reuse socket holds (unicast would
+				// then be balanced to it), so the port is taken from a plain socket first
+				tmp, port, err := rawUDP("0.0.0.0", 0, false)
+				if err != nil {
+					return err
+				}
+				unix.Close(tmp)
+				addr = fmt.Sprintf(":%d", port)
 			case "empty0":
 				addr = ""
 			case "lo0":
